@@ -401,6 +401,20 @@ fn prepare(sc: &Scenario, renderer: &str, rootp: &Path, tag: &str, tmp_root: &Pa
     if sc.cli.debug {
         args.push("--debug".into());
     }
+    if sc.cli.verbose && !update {
+        args.push("--verbose".into());
+    }
+    if let Some(l) = &sc.cli.log_level {
+        args.push("--log-level".into());
+        args.push(l.clone());
+    }
+    // a shell named by a bare command name is looked up in PATH - an entry of the same name in the
+    // directory scrut is started in is none of its business
+    for name in sc.cli.shell.iter().chain(sc.docs.iter().filter_map(|d| d.shell.as_ref())) {
+        if !name.contains('/') {
+            let _ = std::fs::create_dir_all(doc_root.join(name).join("completions"));
+        }
+    }
     if sc.cli.work_directory {
         args.push("--work-directory".into());
         args.push(work.to_string_lossy().into_owned());
